@@ -131,5 +131,10 @@ func VerifC19RetryLoop() {
 	zzverif.Assume(b.asyncFifoRetry.Size() == 0) // the executions in which the repair loop got to run
 	g, err := b.Get(vCtx(), &proto.GetRequest{Key: key})
 	zzverif.Assert(err == nil && g.Kv != nil, "the key is readable after the repair")
+	// every revision handed out meanwhile (also by the repair) was resolved: a later write becomes readable
+	cr, err := b.Create(vCtx(), &proto.CreateRequest{Key: vNames[3], Value: []byte("l")})
+	zzverif.Assert(err == nil && cr.Succeeded, "a later create succeeds")
+	zzverif.WaitIdle()
+	zzverif.Assert(b.GetCurrentRevision() >= cr.Header.Revision, "requests keep flowing after the repair: a later write becomes readable")
 	zzverif.Cover("done")
 }
